@@ -171,6 +171,11 @@ class SpecEval(object):
             return payload
         if kind == 'class':
             return SV(VCls(z3.IntVal(front.cls_id(payload))), Ty.TCls(payload), None, False)
+        if kind == 'object':
+            from .state import GLOBAL_OBJECTS, global_object_sv
+            q = '%s:%s' % (self.modname, name)
+            if q in GLOBAL_OBJECTS:
+                return global_object_sv(q)
         raise SpecError('unknown name %s in spec (module %s)' % (name, self.modname))
 
     def ev_Attribute(self, n):
@@ -608,6 +613,9 @@ class SpecEval(object):
 
     def fn_is_bytes(self, n):
         return is_bytes(val_of(self.ev(n.args[0])))
+
+    def fn_vb(self, n):
+        return vb(val_of(self.ev(n.args[0])))
 
     def fn_vint(self, n):
         return SV(VInt(int_of(self.ev(n.args[0]))), Ty.INT)
